@@ -53,10 +53,17 @@ func genOmCase(t *rapid.T, maxOracles, maxOps int) omCase {
 	c.N = rapid.IntRange(1, maxOracles).Draw(t, "n")
 	c.Thr = rapid.SampledFrom([]int64{100, 300, 700, 1000, 10000}).Draw(t, "thr")
 	c.Mult = rapid.Int64Range(1, 10).Draw(t, "mult")
-	dist := rapid.IntRange(0, 2).Draw(t, "dist")
+	dist := rapid.IntRange(0, 3).Draw(t, "dist")
+	if dist == 3 {
+		// few power units per oracle and stakes that are not whole units: the quorum bar falls between
+		// "sum of the voters' powers" and "power of the voters' summed stakes" as often as possible
+		c.Thr, c.Mult = 100, 10
+	}
 	for i := 0; i < c.N; i++ {
 		var s int64
 		switch dist {
+		case 3:
+			s = 100*rapid.Int64Range(1, 9).Draw(t, "units") + rapid.SampledFrom([]int64{50, 50, 99, 1, 0}).Draw(t, "part")
 		case 0: // uniform in bounds
 			s = c.Thr + rapid.Int64Range(0, c.Thr*(c.Mult-1)).Draw(t, "stake")
 		case 1: // one whale, many dwarfs
@@ -78,6 +85,18 @@ func genOmCase(t *rapid.T, maxOracles, maxOps int) omCase {
 	}
 	nops := rapid.IntRange(3, maxOps).Draw(t, "nops")
 	for i := 0; i < nops; i++ {
+		if c.SignedWindow < 100 && rapid.IntRange(0, 11).Draw(t, "slashRevote") == 5 {
+			// an oracle votes, misses the signed window and is taken offline, pays its way back online and
+			// votes again for the nonce it already voted on (or the next one)
+			o := rapid.IntRange(0, c.N-1).Draw(t, "sro")
+			c.Ops = append(c.Ops, omOp{Kind: "vote", O: o, NonceSel: 0, Variant: rapid.IntRange(0, 1).Draw(t, "srv")})
+			for j := uint64(0); j < c.SignedWindow+2; j++ {
+				c.Ops = append(c.Ops, omOp{Kind: "endblock"})
+			}
+			c.Ops = append(c.Ops, omOp{Kind: "adddelegate", O: o, Amt: 1}, omOp{Kind: "adddelegate", O: o, Amt: c.Thr/10 + 1}, omOp{Kind: "adddelegate", O: o, Amt: c.Thr},
+				omOp{Kind: "vote", O: o, NonceSel: rapid.SampledFrom([]int{2, 2, 1, 0}).Draw(t, "srsel"), Variant: rapid.IntRange(0, 1).Draw(t, "srv2")})
+			continue
+		}
 		k := rapid.SampledFrom([]string{"vote", "vote", "vote", "vote", "vote", "vote", "vote", "exec", "exec", "govset", "bond", "adddelegate", "unbond", "rebond", "endblock", "confirm"}).Draw(t, "kind")
 		op := omOp{Kind: k, O: rapid.IntRange(0, c.N-1).Draw(t, "o")}
 		switch k {
@@ -254,7 +273,7 @@ func runOracleMachine(c omCase, which string, rec *ev.Recorder) *Failure {
 			claim := omClaim(&c, f, keys, nonce, op.Variant)
 			oraclePre, foundPre := k.GetOracle(ctx, keys[o].Oracle.Acc())
 			pre := chainStore(ctx)
-			r := f.VoteAs(sctx, ch, keys[o], claim, nonce, uint64(1000+si))
+			r := f.VoteAs(sctx, ch, keys[o], claim, nonce, uint64(1000)+10*nonce+uint64(op.Variant)) // the height belongs to the event, not to the vote: equal claims hash equal
 			key := fmt.Sprintf("%d/%d", nonce, op.Variant)
 			if os.Getenv("VERIF_DEBUG") != "" {
 				fmt.Printf("  step %d vote o%d nonce %d v%d own=%d lastObs=%d->%d total=%s online=%d codeCursor(pre)=%d -> ok=%v err=%v\n", si, o, nonce, op.Variant, own, lastObsPre, k.GetLastObservedEventNonce(sctx), totalPre, len(k.GetAllOracles(ctx, true)), k.GetLastEventNonceByOracle(ctx, keys[o].Oracle.Acc()), r.OK(), r.Err)
